@@ -396,6 +396,33 @@ macro_rules! unwrap_locate {
     }};
 }
 
+// Verification hooks: compiled only with `--cfg sv_parser_verif`.
+// Instantiations of the exported traversal macros, so that their expansions have function bodies.
+#[cfg(sv_parser_verif)]
+pub mod verif_hooks {
+    use crate::{Locate, RefNode};
+
+    pub fn unwrap_node_symbol_keyword<'a>(n: RefNode<'a>) -> Option<RefNode<'a>> {
+        unwrap_node!(n, Symbol, Keyword)
+    }
+
+    pub fn unwrap_node_keyword_symbol<'a>(n: RefNode<'a>) -> Option<RefNode<'a>> {
+        unwrap_node!(n, Keyword, Symbol)
+    }
+
+    pub fn unwrap_node_whitespace_locate<'a>(n: RefNode<'a>) -> Option<RefNode<'a>> {
+        unwrap_node!(n, WhiteSpace, Locate)
+    }
+
+    pub fn unwrap_node_locate<'a>(n: RefNode<'a>) -> Option<RefNode<'a>> {
+        unwrap_node!(n, Locate)
+    }
+
+    pub fn unwrap_locate_of<'a>(n: RefNode<'a>) -> Option<&'a Locate> {
+        unwrap_locate!(n)
+    }
+}
+
 #[cfg(test)]
 mod test {
     use super::*;
